@@ -302,32 +302,21 @@ impl Font {
                         _ => Err(PdfError::Other { msg: format!("CID range {} + {} in W array exceeds {}", first, len, MAX_CID) })
                     }
                 };
+                // any element of the array may be given as a reference
                 while let Some(p) = iter.next() {
-                    let c1 = p.as_usize()?;
-                    match iter.next() {
+                    let c1 = p.clone().resolve(resolve)?.as_usize()?;
+                    match iter.next().map(|p| p.clone().resolve(resolve)).transpose()? {
                         Some(Primitive::Array(array)) => {
                             cid_range(c1, array.len())?;
                             widths.ensure_cid((c1 + array.len()).saturating_sub(1));
                             for (i, w) in array.iter().enumerate() {
-                                widths.set(c1 + i, w.as_number()?);
+                                widths.set(c1 + i, w.clone().resolve(resolve)?.as_number()?);
                             }
                         },
-                        Some(&Primitive::Reference(r)) => {
-                            match resolve.resolve(r)? {
-                                Primitive::Array(array) => {
-                                    cid_range(c1, array.len())?;
-                                    widths.ensure_cid((c1 + array.len()).saturating_sub(1));
-                                    for (i, w) in array.iter().enumerate() {
-                                        widths.set(c1 + i, w.as_number()?);
-                                    }
-                                }
-                                p => return Err(PdfError::Other { msg: format!("unexpected primitive in W array: {:?}", p) })
-                            }
-                        }
-                        Some(c2 @ &Primitive::Integer(_)) => {
+                        Some(c2 @ Primitive::Integer(_)) => {
                             let c2 = c2.as_usize()?;
                             cid_range(c2, 1)?;
-                            let w = try_opt!(iter.next()).as_number()?;
+                            let w = try_opt!(iter.next()).clone().resolve(resolve)?.as_number()?;
                             for c in c1 ..= c2 {
                                 widths.set(c, w);
                             }
